@@ -138,6 +138,7 @@ def main(chk):
     c = property(lambda self: self.ca)
   RN = {'a': 'a', 'b': 'ba', 'c': 'ca'}
 
+  nopt = [0]
   for case in opt['exports']:
     cfg = case['cfg']
     key = f"C17:opt:{cfg['tx']}:wrt={cfg['wrt']}:gs={cfg['gs']}"
@@ -147,6 +148,9 @@ def main(chk):
     net = Net()
     objs = (net.a, net.b, net.c)
     wrt = nnx.Param if cfg['wrt'] == 'all' else nnx.All(nnx.Param, nnx.PathContains('a'))
+    if cfg['wrt'] != 'all' and nopt[0] % 2 == 1:      # rendering: the path alternative written as a nested sequence (= Any) inside All
+      wrt = nnx.All(nnx.Param, (nnx.PathContains('a'), nnx.PathContains('no_such_key')))
+    nopt[0] += 1
     o = nnx.Optimizer(net, make_tx(cfg['tx']), wrt=wrt)
     hand_p = {p: jnp.asarray({'a': 4.0, 'b': 8.0}[p]) for p in sel}
     tx = make_tx(cfg['tx'])
@@ -195,6 +199,24 @@ def main(chk):
       if got != {p: want[p] for p in ('a', 'b')} or int(nts.step) != case['step']:
         chk.violation(key + ':nnx.TrainState', f'nnx.TrainState params {got} step {int(nts.step)}, specification {want}', case)
   chk.sample({'spec': 'TrainLoop', 'opt_case': opt['exports'][len(opt['exports']) // 2]})
+
+  # ---- two metrics of the same structure threaded through nnx.scan as the Carry: each ends with the statistic of its own stream
+  chk.count('C17:metrics:two-in-a-scan-carry')
+  try:
+    la, ac = nnx.metrics.Average('loss'), nnx.metrics.Average('acc')
+    losses, accs = jnp.asarray([1.0, 2.0, 3.0, 6.0]), jnp.asarray([0.5, 0.25, 0.25, 0.0])
+
+    def mstep(carry, xs_):
+      a_, b_ = carry
+      a_.update(loss=xs_[0])
+      b_.update(acc=xs_[1])
+      return (a_, b_), xs_[0]
+    nnx.scan(mstep, in_axes=(nnx.Carry, 0), out_axes=(nnx.Carry, 0))((la, ac), (losses, accs))
+    got_m = (float(la.compute()), float(ac.compute()))
+    if got_m != (3.0, 0.25):
+      chk.violation('C17:metrics:two-in-a-scan-carry', f'two Average metrics updated inside nnx.scan report {got_m}; their streams have means (3.0, 0.25)', {})
+  except Exception as e:
+    chk.violation('C17:metrics:two-in-a-scan-carry', f'raised {type(e).__name__}: {str(e)[:200]}', {})
 
   # ------------------------------------------------------------------ mixed precision / adam family vs the hand loop (differential)
   for name, mk in (('adam', lambda: optax.adam(0.1)), ('adamw', lambda: optax.adamw(0.1)),
